@@ -291,6 +291,11 @@ let dispatch (f : string) (args : sx list) : sx =
       L (SL.map (fun v -> let s = str_of_sx v in
                    L [(match ConvInst.i_convert f s with Convert.COk r -> L [A "Ok"; sx_of_str r] | Convert.CValueError -> A "ValueError");
                       A (if ConvInst.i_valid j s then "1" else "0")]) vals)
+  | "h_escape", [v] -> sx_of_str (Html.h_escape (str_of_sx v))
+  | "h_quoteattr", [v] -> sx_of_str (Html.h_quoteattr (str_of_sx v))
+  | "h_opentag", [t; L atts; b] -> sx_of_str (Html.h_opentag (str_of_sx t) (SL.map (function L [k; v] -> (str_of_sx k, str_of_sx v) | _ -> failwith "att") atts) (int_of_sx b <> 0))
+  | "h_closetag", [t; b] -> sx_of_str (Html.h_closetag (str_of_sx t) (int_of_sx b <> 0))
+  | "h_emptytag", [t; L atts] -> sx_of_str (Html.h_emptytag (str_of_sx t) (SL.map (function L [k; v] -> (str_of_sx k, str_of_sx v) | _ -> failwith "att") atts))
   | "ls_load", [L es] ->
       let elem_of_sx = function
         | L [d; L refs] -> { LoadStyles.le_def = opt_of_sx str_of_sx d;
